@@ -32,8 +32,13 @@ class Taint:
     def __init__(self, ctx: Ctx, rep: RuleReport):
         self.ctx = ctx
         self.rep = rep
-        self.funcs = {q: ctx.repo.func(F, q) for q in ('format', '_format_node', '_format_edge')}
-        self.tainted_params: Dict[str, Set[str]] = {'format': set(), '_format_node': set(), '_format_edge': set()}
+        from ..resolve import local_callees
+        fmt0 = ctx.repo.func(F, 'format')
+        self.funcs = {f.qualname: f for f in local_callees(ctx, fmt0, depth=4) if f.module.name == F}
+        for q in ('_format_node', '_format_edge'):
+            self.funcs.setdefault(q, ctx.repo.func(F, q))
+        self.tainted_params: Dict[str, Set[str]] = {q: set() for q in self.funcs}
+        self.ret_vals: Dict[str, Set[str]] = {q: set() for q in self.funcs}
         fmt = self.funcs['format']
         for p in fmt.positional[1:]:
             self.tainted_params['format'].add(p)          # indent, compact (everything but the tree)
@@ -44,7 +49,7 @@ class Taint:
 
     def solve(self):
         for _ in range(12):
-            before = (repr(self.env), repr(self.tainted_params))
+            before = (repr(self.env), repr(self.tainted_params), repr(self.ret_vals))
             for q, fi in self.funcs.items():
                 env = self.env[q]
                 for p in fi.params:
@@ -64,7 +69,9 @@ class Taint:
                             env.setdefault(nm, set()).update({NT} if NT in itv else {U})
                     elif isinstance(n, ast.Call):
                         self.flow_call(q, n)
-            if (repr(self.env), repr(self.tainted_params)) == before:
+                    elif isinstance(n, ast.Return) and n.value is not None:
+                        self.ret_vals[q] |= self.val(q, n.value)
+            if (repr(self.env), repr(self.tainted_params), repr(self.ret_vals)) == before:
                 break
 
     def bind(self, q, target, v: Set[str], stmt):
@@ -114,6 +121,13 @@ class Taint:
                 return {WS} if _is_ws_literal(e.value) else {U}
             return {'N'}            # a literal number / flag / None
         if isinstance(e, ast.Name):
+            if e.id not in env:
+                from ..resolve import module_value
+                ok, v = module_value(self.ctx, self.funcs[q].module, e.id)
+                if ok and isinstance(v, str):
+                    return {WS} if _is_ws_literal(v) else {U}
+                if ok and not isinstance(v, (list, dict, set)):
+                    return {'N'}
             return set(env.get(e.id, {U}))
         if isinstance(e, ast.BinOp):
             l, r = self.val(q, e.left), self.val(q, e.right)
@@ -153,7 +167,11 @@ class Taint:
             if isinstance(fn, ast.Attribute):
                 recv = self.val(q, fn.value)
                 return {NT} if (recv | anyt) & {NT, 'CT'} else {U}
-            # repo call: the result of a formatter call is content
+            # repo call: what the callee returns (the formatter functions return content)
+            for t in self.ctx.cg.resolve_call(e, self.funcs[q]):
+                if t.kind == 'func' and t.func.module.name == F and t.func.qualname in self.ret_vals:
+                    rv = self.ret_vals[t.func.qualname]
+                    return set(rv) if rv else {U}
             return {U}
         if isinstance(e, (ast.Compare, ast.BoolOp, ast.UnaryOp)):
             vals = set()
@@ -194,27 +212,74 @@ class Taint:
             (isinstance(e, ast.Call) and isinstance(e.func, ast.Name) and e.func.id in ('set', 'list', 'bool', 'len', 'int'))
 
 
-def _min_ws_len(ctx: Ctx, fi: FuncInfo, e: ast.AST, depth: int = 0) -> Optional[int]:
-    """Lower bound on the length of a whitespace-only string expression (None: not whitespace-only)."""
-    if depth > 6:
+def _min_ws_len(ctx: Ctx, fi: FuncInfo, e: ast.AST, depth: int = 0, at: Optional[ast.AST] = None) -> Optional[int]:
+    """Lower bound on the length of a whitespace-only string expression (None: not provably whitespace-only)."""
+    from ..resolve import helper_returns, module_value, view
+    from ..cfg import def_value
+    if depth > 8:
         return None
+    at = at if at is not None else e
     if isinstance(e, ast.Constant) and isinstance(e.value, str):
         return len(e.value) if e.value == '' or _is_ws_literal(e.value) else None
     if isinstance(e, ast.BinOp) and isinstance(e.op, ast.Add):
-        a, b = _min_ws_len(ctx, fi, e.left, depth + 1), _min_ws_len(ctx, fi, e.right, depth + 1)
+        a, b = _min_ws_len(ctx, fi, e.left, depth + 1, at), _min_ws_len(ctx, fi, e.right, depth + 1, at)
         return None if a is None or b is None else a + b
     if isinstance(e, ast.BinOp) and isinstance(e.op, ast.Mult):
-        a = _min_ws_len(ctx, fi, e.left, depth + 1)
+        a = _min_ws_len(ctx, fi, e.left, depth + 1, at)
         return None if a is None else 0
-    if isinstance(e, ast.Name):
-        vals = [v for v in ctx.cg.local_assigns(fi).get(e.id, []) if isinstance(v, ast.AST)]
-        if not vals or len(vals) != len(ctx.cg.local_assigns(fi).get(e.id, [])):
-            return None
-        lens = [_min_ws_len(ctx, fi, v, depth + 1) for v in vals]
-        return None if any(x is None for x in lens) else min(lens)
     if isinstance(e, ast.IfExp):
-        a, b = _min_ws_len(ctx, fi, e.body, depth + 1), _min_ws_len(ctx, fi, e.orelse, depth + 1)
+        a, b = _min_ws_len(ctx, fi, e.body, depth + 1, at), _min_ws_len(ctx, fi, e.orelse, depth + 1, at)
         return None if a is None or b is None else min(a, b)
+    if isinstance(e, ast.Name):
+        v = view(ctx, fi)
+        try:
+            here = v.node_of(at)
+            defs = v.rd.get(here, {}).get(e.id)
+        except Exception:
+            defs = None
+        if not defs:
+            ok, mv = module_value(ctx, fi.module, e.id)
+            if ok and isinstance(mv, str):
+                return len(mv) if mv == '' or _is_ws_literal(mv) else None
+            return None
+        lens = []
+        for d in defs:
+            if d == v.cfg.entry:
+                return None
+            nd = v.cfg.nodes[d]
+            val = def_value(v.cfg, d, e.id)
+            if val is not None:
+                lens.append(_min_ws_len(ctx, fi, val, depth + 1, nd.ast))
+                continue
+            st = nd.ast
+            if nd.kind == 'stmt' and isinstance(st, ast.Assign) and isinstance(st.targets[0], ast.Tuple):
+                names = [x.id if isinstance(x, ast.Name) else None for x in st.targets[0].elts]
+                i = names.index(e.id) if e.id in names else None
+                if i is None:
+                    return None
+                if isinstance(st.value, ast.Tuple) and len(st.value.elts) == len(names):
+                    lens.append(_min_ws_len(ctx, fi, st.value.elts[i], depth + 1, st))
+                    continue
+                if isinstance(st.value, ast.Call):
+                    ts = ctx.cg.resolve_call(st.value, fi)
+                    hs = [t.func for t in ts if t.kind == 'func']
+                    if len(hs) == 1:
+                        h = hs[0]
+                        for r in (x for x in walk_local(h.node) if isinstance(x, ast.Return) and x.value is not None):
+                            if isinstance(r.value, ast.Tuple) and i < len(r.value.elts):
+                                lens.append(_min_ws_len(ctx, h, r.value.elts[i], depth + 1, r))
+                            else:
+                                return None
+                        continue
+            return None
+        return None if (not lens or any(x is None for x in lens)) else min(lens)
+    if isinstance(e, ast.Call):
+        ts = ctx.cg.resolve_call(e, fi)
+        hs = [t.func for t in ts if t.kind == 'func']
+        if len(hs) == 1:
+            lens = [_min_ws_len(ctx, hs[0], r.value, depth + 1, r) for r in walk_local(hs[0].node)
+                    if isinstance(r, ast.Return) and r.value is not None]
+            return None if (not lens or any(x is None for x in lens)) else min(lens)
     return None
 
 
@@ -227,14 +292,41 @@ def r20(ctx: Ctx) -> RuleReport:
     for q, want in need.items():
         if not want <= ta.tainted_params[q]:
             raise AnalysisError(f'R20: option parameters of {q} are no longer {sorted(want)} (found {sorted(ta.tainted_params[q])})')
+    # content producers: the three formatter functions and helpers whose result is written into the text
+    producers = {'format', '_format_node', '_format_edge'}
+    changed = True
+    while changed:
+        changed = False
+        for q in list(producers):
+            fi = ta.funcs.get(q)
+            if fi is None:
+                continue
+            pm0 = ctx.repo.parent_map(fi.node)
+            for call, ts in ctx.cg.calls_in(fi):
+                for t in ts:
+                    if t.kind == 'func' and t.func.module.name == F and t.func.qualname in ta.funcs and t.func.qualname not in producers:
+                        par = pm0.get(id(call))
+                        as_text = isinstance(par, (ast.Return, ast.FormattedValue, ast.JoinedStr)) or \
+                            (isinstance(par, ast.Call) and isinstance(par.func, ast.Attribute) and par.func.attr in ('append', 'extend', 'join', 'format')) or \
+                            (isinstance(par, ast.Assign) and isinstance(par.targets[0], ast.Name)
+                             and any(isinstance(x, ast.Name) and x.id == par.targets[0].id and isinstance(pm0.get(id(x)), (ast.Return, ast.FormattedValue))
+                                     for x in walk_local(fi.node)))
+                        if as_text:
+                            producers.add(t.func.qualname)
+                            changed = True
     for q, fi in ta.funcs.items():
         pm = ctx.repo.parent_map(fi.node)
+        joined_lists = {norm(n.args[0]) for n in walk_local(fi.node) if isinstance(n, ast.Call) and isinstance(n.func, ast.Attribute)
+                        and n.func.attr == 'join' and len(n.args) == 1 and isinstance(n.args[0], ast.Name)}
+        if q not in producers:
+            continue        # a helper whose result is not placed into the text (e.g. it computes the joiner and the column)
         # (1) every string placed into the output is free of option-dependent visible characters
         for n in walk_local(fi.node):
             sinks: List[Tuple[ast.AST, str]] = []
             if isinstance(n, ast.Return) and n.value is not None:
                 sinks.append((n.value, 'returned text'))
-            if isinstance(n, ast.Call) and isinstance(n.func, ast.Attribute) and n.func.attr in ('append', 'extend', 'insert') and n.args:
+            if isinstance(n, ast.Call) and isinstance(n.func, ast.Attribute) and n.func.attr in ('append', 'extend', 'insert') and n.args \
+                    and norm(n.func.value) in joined_lists:
                 sinks.append((n.args[-1], f'appended to {norm(n.func.value)}'))
             for e, what in sinks:
                 v = ta.val(q, e)
@@ -270,7 +362,7 @@ def r20(ctx: Ctx) -> RuleReport:
                 regroup = isinstance(tgt, ast.Name) and isinstance(n.value, ast.List) and len(n.value.elts) == 1 and \
                     isinstance(n.value.elts[0], ast.Call) and isinstance(n.value.elts[0].func, ast.Attribute) and \
                     n.value.elts[0].func.attr == 'join' and len(n.value.elts[0].args) == 1 and \
-                    norm(n.value.elts[0].args[0]) == tgt.id and (_min_ws_len(ctx, fi, n.value.elts[0].func.value) or 0) >= 1
+                    norm(n.value.elts[0].args[0]) == tgt.id and (_min_ws_len(ctx, fi, n.value.elts[0].func.value, 0, n) or 0) >= 1
                 if regroup:
                     rep.ok(key, fi.loc(n), 'projection-preserving regrouping: parts = [<whitespace>.join(parts)]')
                 else:
@@ -279,11 +371,15 @@ def r20(ctx: Ctx) -> RuleReport:
         # (4) joins: the separator is whitespace of length >= 1 on every path
         for n in walk_local(fi.node):
             if isinstance(n, ast.Call) and isinstance(n.func, ast.Attribute) and n.func.attr == 'join' and fi.qualname != 'format_triples':
-                ml = _min_ws_len(ctx, fi, n.func.value)
+                ml = _min_ws_len(ctx, fi, n.func.value, 0, n)
                 key = f'{fi.module.name}:{fi.qualname}: separator of {norm(n)[:50]}'
-                rep.add(key, fi.loc(n), 'ok' if ml is not None and ml >= 1 else 'violation',
-                        f'whitespace of length >= {ml}' if ml else 'the separator is not provably a non-empty whitespace string: '
-                        'two written pieces could be glued together')
+                if ml is not None and ml >= 1:
+                    rep.ok(key, fi.loc(n), f'whitespace of length >= {ml}')
+                elif ml == 0:
+                    rep.violation(key, fi.loc(n), 'the separator is whitespace that can be empty (e.g. `\' \' * column` with column 0): two written '
+                                  'pieces are glued together and lex as one token')
+                else:
+                    rep.undecided(key, fi.loc(n), 'the separator is not provably a whitespace string')
     # (5) formatter calls: options are passed on unchanged to the recursive calls
     for q, fi in ta.funcs.items():
         for call, ts in ctx.cg.calls_in(fi):
@@ -293,14 +389,15 @@ def r20(ctx: Ctx) -> RuleReport:
                     idx = callee.positional.index('indent') if 'indent' in callee.positional else None
                     a = call.args[idx] if idx is not None and idx < len(call.args) else None
                     good = a is not None and norm(a) == 'indent'
-                    rep.add(f'{fi.module.name}:{fi.qualname}: {norm(call)[:60]} passes indent on', fi.loc(call), 'ok' if good else 'violation')
+                    rep.add(f'{fi.module.name}:{fi.qualname}: {norm(call)[:60]} passes indent on', fi.loc(call), 'ok' if good else 'undecided')
     return rep
 
 
 def _mentions_content(ta: Taint, q: str, e: ast.AST) -> bool:
     for x in ast.walk(e):
         if isinstance(x, ast.Name) and U in ta.env[q].get(x.id, set()) and not (ta.env[q].get(x.id, set()) & {NT}):
-            if x.id in ('parts',):
+            if any(isinstance(c, ast.Call) and isinstance(c.func, ast.Attribute) and c.func.attr == 'join' and c.args
+                   and norm(c.args[0]) == x.id for c in walk_local(ta.funcs[q].node)):
                 return True
     return False
 
@@ -380,7 +477,9 @@ def r8g(ctx: Ctx) -> RuleReport:
         if isinstance(n, ast.Return) and n.value is not None:
             tpl = _template(n.value)
     if tpl is None or [k for k, _ in tpl] != ['field', 'field', 'field']:
-        raise AnalysisError('R8g: _format_edge does not return f"{role}{sep}{target}"')
+        # other shapes (e.g. an early `return f'{role}'` and a final f'{role} {target}') have no separator variable:
+        # the adjacency loop above has already judged every boundary of every returned template
+        return rep
     sepname = tpl[1][1].replace('!s', '')
     tgtname = tpl[2][1].replace('!s', '')
     for n in walk_local(fe.node):
@@ -388,14 +487,14 @@ def r8g(ctx: Ctx) -> RuleReport:
             ok, v = try_fold(n.value)
             key = f'penman._format:_format_edge: {norm(n)}'
             if not ok or not isinstance(v, str):
-                rep.violation(key, fe.loc(n), 'the role/target separator is not a literal')
+                rep.undecided(key, fe.loc(n), 'the role/target separator is not a literal')
             elif v == '':
                 both = any(isinstance(t, ast.Name) and t.id == tgtname for t in n.targets)
                 rep.add(key, fe.loc(n), 'ok' if both else 'violation',
                         'empty separator only together with an empty target' if both else
                         'the separator can be empty while a target is written: role and target would be glued into one token')
             else:
-                rep.add(key, fe.loc(n), 'ok' if v.strip() == '' else 'violation', f'separator {v!r}')
+                rep.add(key, fe.loc(n), 'ok' if v.strip() == '' else 'undecided', f'separator {v!r}')
     return rep
 
 
@@ -428,7 +527,10 @@ def sym_str(e: ast.AST, truthy: Dict[str, bool], binds: Dict[str, ast.AST]) -> O
         if e.id in truthy:
             return [('field', e.id)] if truthy[e.id] else []
         if e.id in binds:
-            return sym_str(binds[e.id], truthy, binds)
+            b = binds[e.id]
+            if isinstance(b, str):
+                return [('lit', b)] if b else []
+            return sym_str(b, truthy, binds)
         return None
     if isinstance(e, ast.BinOp) and isinstance(e.op, ast.Add):
         a, b = sym_str(e.left, truthy, binds), sym_str(e.right, truthy, binds)
@@ -534,44 +636,68 @@ def _merge(p: List[Tuple[str, str]]) -> List[Tuple[str, str]]:
 def r45(ctx: Ctx) -> RuleReport:
     rep = RuleReport('R45', r45.title, floor=4)
     fi = ctx.repo.func(F, 'format')
-    comp = None
+    from ..resolve import module_value
+    line_expr = None
+    filt = []
+    k = v = None
+    where = fi.loc()
+    binds: Dict[str, object] = {}
+    for nm in fi.module.constants:
+        ok, mv = module_value(ctx, fi.module, nm)
+        if ok and isinstance(mv, str):
+            binds[nm] = mv
     for n in walk_local(fi.node):
         if isinstance(n, (ast.ListComp, ast.GeneratorExp)) and any('metadata.items()' in norm(g.iter) for g in n.generators):
-            comp = n
-    if comp is None:
-        loop = next((n for n in walk_local(fi.node) if isinstance(n, ast.For) and 'metadata.items()' in norm(n.iter)), None)
-        if loop is None:
-            raise AnalysisError('R45: format() does not iterate tree.metadata.items()')
-        raise AnalysisError('R45: metadata lines are built in a statement loop; only the comprehension form is modelled')
-    g = comp.generators[0]
-    if not (isinstance(g.target, ast.Tuple) and len(g.target.elts) == 2 and all(isinstance(x, ast.Name) for x in g.target.elts)):
-        raise AnalysisError('R45: metadata comprehension does not unpack (key, value)')
-    k, v = g.target.elts[0].id, g.target.elts[1].id
-    rep.add('penman._format:format: every metadata entry is written', fi.loc(comp), 'ok' if not g.ifs else 'violation',
-            '' if not g.ifs else f'entries are filtered by {[norm(c) for c in g.ifs]}')
+            g = n.generators[0]
+            if isinstance(g.target, ast.Tuple) and len(g.target.elts) == 2 and all(isinstance(x, ast.Name) for x in g.target.elts):
+                k, v = g.target.elts[0].id, g.target.elts[1].id
+                line_expr, filt, where = n.elt, list(g.ifs), fi.loc(n)
+        if isinstance(n, ast.For) and 'metadata.items()' in norm(n.iter) and isinstance(n.target, ast.Tuple) \
+                and len(n.target.elts) == 2 and all(isinstance(x, ast.Name) for x in n.target.elts):
+            k, v = n.target.elts[0].id, n.target.elts[1].id
+            apps = [c for c in ast.walk(n) if isinstance(c, ast.Call) and isinstance(c.func, ast.Attribute) and c.func.attr == 'append' and c.args]
+            if len(apps) == 1:
+                line_expr, where = apps[0].args[0], fi.loc(n)
+                # locals defined once inside the loop body stand for their definitions
+                for st in ast.walk(n):
+                    if isinstance(st, ast.Assign) and len(st.targets) == 1 and isinstance(st.targets[0], ast.Name):
+                        binds[st.targets[0].id] = st.value
+                # a guarded append would drop entries
+                pmf = ctx.repo.parent_map(fi.node)
+                par = pmf.get(id(pmf.get(id(apps[0]))))
+                filt = [par.test] if isinstance(par, ast.If) else []
+    if line_expr is None:
+        rep.undecided('penman._format:format: metadata lines are built per (key, value) of tree.metadata.items()', fi.loc(),
+                      'neither a comprehension nor a loop with one append over metadata.items() was found')
+        return rep
+    rep.add('penman._format:format: every metadata entry is written', where, 'ok' if not filt else 'violation',
+            '' if not filt else f'entries are filtered by {[norm(c) for c in filt]}')
     for kt, vt in itertools.product([True, False], repeat=2):
         truthy = {k: kt, v: vt}
-        got = sym_str(comp.elt, truthy, {})
+        got = sym_str(line_expr, truthy, binds)
         want = [('lit', '# ::')] + ([('field', k)] if kt else []) + ([('lit', ' '), ('field', v)] if vt else [])
         key = f'penman._format:format: metadata line when key is {"non-empty" if kt else "empty"} and value is {"non-empty" if vt else "empty"}'
         if got is None:
-            raise AnalysisError(f'R45: the metadata line expression is not understood: {norm(comp.elt)[:80]}')
+            rep.undecided(key, where, f'the metadata line expression is not understood: {norm(line_expr)[:80]}')
+            continue
         good = _merge(got) == _merge(want)
-        rep.add(key, fi.loc(comp), 'ok' if good else 'violation',
+        rep.add(key, where, 'ok' if good else 'violation',
                 '' if good else f'writes {_merge(got)} but the comment scanner (split at "::", then key up to the first space) needs {_merge(want)}')
     # metadata lines come before the node, one per line
     rets = [n for n in walk_local(fi.node) if isinstance(n, ast.Return) and n.value is not None]
     good = len(rets) == 1 and isinstance(rets[0].value, ast.Call) and isinstance(rets[0].value.func, ast.Attribute) \
         and rets[0].value.func.attr == 'join' and try_fold(rets[0].value.func.value) == (True, '\n')
-    rep.add('penman._format:format: metadata lines and the node are joined by single line feeds', fi.loc(), 'ok' if good else 'violation')
+    rep.add('penman._format:format: metadata lines and the node are joined by single line feeds', fi.loc(), 'ok' if good else 'undecided')
     # reader side
     pc = ctx.repo.func('penman._parse', '_parse_comments')
     rp = [n for n in walk_local(pc.node) if isinstance(n, ast.Call) and isinstance(n.func, ast.Attribute) and n.func.attr == 'rpartition'
           and n.args and try_fold(n.args[0]) == (True, '::')]
     pt = [n for n in walk_local(pc.node) if isinstance(n, ast.Call) and isinstance(n.func, ast.Attribute) and n.func.attr == 'partition'
           and n.args and try_fold(n.args[0]) == (True, ' ')]
+    sp = [n for n in walk_local(pc.node) if isinstance(n, ast.Call) and isinstance(n.func, ast.Attribute) and n.func.attr in ('rsplit', 'split')
+          and len(n.args) == 1 and try_fold(n.args[0]) == (True, '::')]
     rep.add('penman._parse:_parse_comments: a comment is split at "::" and each piece at its first space', pc.loc(),
-            'ok' if rp and pt else 'violation')
+            'ok' if (rp or sp) and pt else 'undecided')
     stores = [n for n in walk_local(pc.node) if isinstance(n, ast.Assign) and isinstance(n.targets[0], ast.Subscript)
               and norm(n.targets[0].value) == 'metadata']
     for st in stores:
@@ -587,10 +713,14 @@ def r45(ctx: Ctx) -> RuleReport:
         key_ok = norm(kx) == unp[0]
         val_ok = isinstance(vx, ast.Call) and isinstance(vx.func, ast.Attribute) and vx.func.attr == 'rstrip' and not vx.args \
             and norm(vx.func.value) == unp[2]
-        rep.add('penman._parse:_parse_comments: the key is stored as written', pc.loc(st), 'ok' if key_ok else 'violation',
+        key_stripped = isinstance(kx, ast.Call) and isinstance(kx.func, ast.Attribute) and kx.func.attr in ('strip', 'lstrip', 'rstrip', 'lower', 'upper')
+        rep.add('penman._parse:_parse_comments: the key is stored as written', pc.loc(st), 'ok' if key_ok else ('violation' if key_stripped else 'undecided'),
                 '' if key_ok else f'key expression {norm(kx)}')
+        raw_piece = isinstance(vx, ast.Name) and norm(vx) == unp[2]
+        left_strip = isinstance(vx, ast.Call) and isinstance(vx.func, ast.Attribute) and vx.func.attr in ('strip', 'lstrip') \
+            and norm(vx.func.value) == unp[2]
         rep.add('penman._parse:_parse_comments: each value is stored with trailing blanks removed and leading content kept', pc.loc(st),
-                'ok' if val_ok else 'violation',
+                'ok' if val_ok else ('violation' if raw_piece or left_strip else 'undecided'),
                 '' if val_ok else f'stored value is {norm(vx)}: the formatter writes the value verbatim after one space, so a value that '
                                   f'keeps a trailing blank (segments before another "::") or loses leading blanks does not survive format then parse')
     return rep
@@ -598,46 +728,138 @@ def r45(ctx: Ctx) -> RuleReport:
 
 @rule('R56', 'format_triples writes role(source, target) per triple, joined by " ^" and a line feed or space, and returns it unprocessed')
 def r56(ctx: Ctx) -> RuleReport:
+    from ..resolve import expand, fold_in, view
+    from ..cfg import def_value
     rep = RuleReport('R56', r56.title, floor=4)
     fi = ctx.repo.func(F, 'format_triples')
+    v = view(ctx, fi)
     rets = [n for n in walk_local(fi.node) if isinstance(n, ast.Return) and n.value is not None]
     if len(rets) != 1:
-        raise AnalysisError('format_triples: expected one return')
-    rv = single_def(ctx, fi, rets[0].value)
-    is_join = isinstance(rv, ast.Call) and isinstance(rv.func, ast.Attribute) and rv.func.attr == 'join' and len(rv.args) == 1
-    rep.add('penman._format:format_triples: the result is <delimiter>.join(<one text per triple>)', fi.loc(rets[0]),
-            'ok' if is_join else 'violation',
-            '' if is_join else f'returns {norm(rv)[:70]}: the assembled text is post-processed, which also rewrites the inside of quoted strings')
-    if not is_join:
+        rep.undecided('penman._format:format_triples: one return', fi.loc(), f'{len(rets)} returns')
         return rep
-    delim = single_def(ctx, fi, rv.func.value)
-    lits = []
-    if isinstance(delim, ast.IfExp):
-        for b in (delim.body, delim.orelse):
-            ok, s = try_fold(b)
-            lits.append(s if ok else None)
-        test_ok = norm(delim.test) == fi.positional[1]
-    else:
-        ok, s = try_fold(delim)
-        lits.append(s if ok else None)
-        test_ok = True
-    good = all(isinstance(s, str) and s.strip() == '^' and s.startswith(' ') and s[-1] in ' \n' for s in lits) and test_ok
+    rv = expand(ctx, fi, rets[0].value, rets[0])
+    # accept  delim.join(items)  where delim may still be a name with several reaching definitions
+    raw = rets[0].value
+    if isinstance(raw, ast.Name):
+        # all definitions that can reach the return: a re-binding that post-processes the assembled text is a concrete defect
+        try:
+            defs = v.rd.get(v.node_of(rets[0]), {}).get(raw.id) or ()
+        except Exception:
+            defs = ()
+        vals = [def_value(v.cfg, d, raw.id) for d in defs if d != v.cfg.entry]
+        for dv in vals:
+            if dv is None:
+                continue
+            reuses = any(isinstance(x, ast.Name) and x.id == raw.id for x in ast.walk(dv))
+            rewrites = any(isinstance(x, ast.Call) and ((isinstance(x.func, ast.Attribute) and x.func.attr in ('split', 'replace', 'strip', 'translate', 'expandtabs'))
+                                                          or norm(x.func) in ('re.sub', 're.split')) for x in ast.walk(dv))
+            if reuses and rewrites:
+                rep.violation('penman._format:format_triples: the result is <delimiter>.join(<one text per triple>)', fi.loc(rets[0]),
+                              f'`{raw.id} = {norm(dv)[:60]}` post-processes the assembled text: whitespace (or other characters) inside quoted '
+                              f'string targets is rewritten as well')
+                return rep
+        raw = single_def(ctx, fi, raw)
+    is_join = isinstance(raw, ast.Call) and isinstance(raw.func, ast.Attribute) and raw.func.attr == 'join' and len(raw.args) == 1
+    post = None
+    if not is_join and isinstance(raw, ast.Call):
+        post = norm(raw)[:70]
+    if not is_join:
+        if post and any(isinstance(x, ast.Call) and isinstance(x.func, ast.Attribute) and x.func.attr == 'join' for x in ast.walk(raw)):
+            rep.violation('penman._format:format_triples: the result is <delimiter>.join(<one text per triple>)', fi.loc(rets[0]),
+                          f'returns {post}: the joined text is post-processed, which also rewrites the inside of quoted strings')
+        else:
+            rep.undecided('penman._format:format_triples: the result is <delimiter>.join(<one text per triple>)', fi.loc(rets[0]), norm(raw)[:70])
+        return rep
+    if any(isinstance(x, ast.Call) and isinstance(x.func, ast.Attribute) and x.func.attr in ('split', 'replace', 'strip', 'translate', 'sub')
+           for x in ast.walk(raw.args[0])) or (isinstance(raw.func.value, ast.Constant) and raw.func.value.value.strip() != '^'
+                                                  and any(isinstance(x, ast.Call) and isinstance(x.func, ast.Attribute) and x.func.attr == 'join'
+                                                          for x in ast.walk(raw.args[0]))):
+        rep.violation('penman._format:format_triples: the result is <delimiter>.join(<one text per triple>)', fi.loc(rets[0]),
+                      f'returns {norm(raw)[:70]}: the joined text is post-processed, which also rewrites the inside of quoted strings')
+        return rep
+    rep.ok('penman._format:format_triples: the result is <delimiter>.join(<one text per triple>)', fi.loc(rets[0]))
+    # delimiter values: every reaching definition, folded with module constants
+    delim = raw.func.value
+    lits: List[object] = []
+
+    def collect(e, at):
+        if isinstance(e, ast.IfExp):
+            collect(e.body, at)
+            collect(e.orelse, at)
+            return
+        ok, val = fold_in(ctx, fi, e)
+        if ok:
+            lits.append(val)
+            return
+        if isinstance(e, ast.Name):
+            try:
+                defs = v.rd.get(v.node_of(at), {}).get(e.id) or ()
+            except Exception:
+                defs = ()
+            got = False
+            for d in defs:
+                if d == v.cfg.entry:
+                    continue
+                dv = def_value(v.cfg, d, e.id)
+                if dv is not None:
+                    collect(dv, v.cfg.nodes[d].ast)
+                    got = True
+            if got:
+                return
+        lits.append(None)
+    collect(delim, rets[0])
+    good = bool(lits) and all(isinstance(x, str) and x.strip() == '^' and x.startswith(' ') and x[-1] in ' \n' for x in lits)
     rep.add('penman._format:format_triples: the delimiter is " ^" followed by a line feed or a space', fi.loc(rets[0]),
-            'ok' if good else 'violation', f'{lits}')
-    items = single_def(ctx, fi, rv.args[0])
-    if not (isinstance(items, (ast.ListComp, ast.GeneratorExp)) and len(items.generators) == 1):
-        if rep.violations():
-            return rep
-        raise AnalysisError('format_triples: the joined value is not a single-generator comprehension')
-    g = items.generators[0]
-    rep.add('penman._format:format_triples: every triple of the argument is written, in order', fi.loc(items),
-            'ok' if norm(g.iter) == fi.positional[0] and not g.ifs else 'violation', norm(g.iter))
-    names = [norm(x) for x in g.target.elts] if isinstance(g.target, ast.Tuple) else []
-    tpl = _template(items.elt)
+            'ok' if good else ('violation' if lits and all(isinstance(x, str) for x in lits) else 'undecided'), f'{lits}')
+    # the joined items: comprehension over the argument, or a list filled by one append in a loop over the argument
+    items = raw.args[0]
+    it_src = elt = names = None
+    filtered = False
+    if isinstance(items, ast.Name):
+        idef = single_def(ctx, fi, items)
+        if isinstance(idef, (ast.ListComp, ast.GeneratorExp)):
+            items = idef
+        else:
+            for n in walk_local(fi.node):
+                if isinstance(n, ast.For):
+                    apps = [c for c in ast.walk(n) if isinstance(c, ast.Call) and isinstance(c.func, ast.Attribute) and c.func.attr == 'append'
+                            and norm(c.func.value) == items.id and c.args]
+                    if len(apps) == 1:
+                        it_src = norm(n.iter)
+                        names = [norm(x) for x in n.target.elts] if isinstance(n.target, ast.Tuple) else []
+                        elt = expand(ctx, fi, apps[0].args[0], apps[0], pure_only=False)
+                        par = ctx.repo.parent_map(fi.node).get(id(ctx.repo.parent_map(fi.node).get(id(apps[0]))))
+                        filtered = isinstance(par, ast.If)
+    if isinstance(items, (ast.ListComp, ast.GeneratorExp)) and len(items.generators) == 1:
+        g = items.generators[0]
+        it_src, elt, filtered = norm(g.iter), items.elt, bool(g.ifs)
+        names = [norm(x) for x in g.target.elts] if isinstance(g.target, ast.Tuple) else []
+    if it_src is None or elt is None:
+        rep.undecided('penman._format:format_triples: every triple of the argument is written, in order', fi.loc(), norm(raw.args[0])[:60])
+        return rep
+    rep.add('penman._format:format_triples: every triple of the argument is written, in order', fi.loc(),
+            'ok' if it_src == fi.positional[0] and not filtered else ('violation' if filtered else 'undecided'), it_src)
+    tpl = _template(elt)
     want = None
-    if len(names) == 3:
-        s, r, t = names
-        want = [('field', f"{r}.lstrip(':')"), ('lit', '('), ('field', s), ('lit', ', '), ('field', t), ('lit', ')')]
-    rep.add('penman._format:format_triples: one triple is written as role-without-colon "(" source ", " target ")"', fi.loc(items),
-            'ok' if tpl is not None and want is not None and tpl == want else 'violation', f'{tpl}')
+    if names and len(names) == 3:
+        s_, r_, t_ = names
+        want = [('field', f"{r_}.lstrip(':')"), ('lit', '('), ('field', s_), ('lit', ', '), ('field', t_), ('lit', ')')]
+    if tpl is None or want is None:
+        rep.undecided('penman._format:format_triples: one triple is written as role-without-colon "(" source ", " target ")"', fi.loc(), norm(elt)[:70])
+    else:
+        tpl = _merge_tpl(tpl)
+        good = tpl == want
+        # positive only when the template was understood and differs in its literal skeleton or field order
+        rep.add('penman._format:format_triples: one triple is written as role-without-colon "(" source ", " target ")"', fi.loc(),
+                'ok' if good else 'violation', f'{tpl}')
     return rep
+
+
+def _merge_tpl(tpl):
+    out = []
+    for k, x in tpl:
+        if k == 'lit' and out and out[-1][0] == 'lit':
+            out[-1] = ('lit', out[-1][1] + x)
+        elif not (k == 'lit' and x == ''):
+            out.append((k, x))
+    return out
